@@ -68,6 +68,19 @@ def bounded(tier, seed):
                    "files": sorted(os.path.relpath(os.path.join(dp, f), root) for dp, dn, fn in os.walk(root) for f in fn if f != ".gitignore")}
             if got != vis:
                 viol.append({"clause": "agrees_with_git", "input": inp, "got": sorted(set(got) - set(vis)), "want": sorted(set(vis) - set(got))})
+            # two overlapping traversal roots in one call: each is judged with the .gitignore files from ITS root down
+            subs = sorted(x for x in os.listdir(root) if os.path.isdir(os.path.join(root, x)) and not x.startswith(".git"))
+            if subs:
+                sub = subs[0]
+                vis_sub = [sub + "/" + p for p in fsgen.git_visible(os.path.join(root, sub)) if p.endswith(".md")]
+                want2 = sorted(set(vis) | set(vis_sub))
+                for order in ((root, os.path.join(root, sub)), (os.path.join(root, sub), root)):
+                    got2 = sorted(os.path.relpath(str(p), os.path.realpath(root))
+                                  for p in FileResolver(FileResolverConfig(exclude=[])).resolve(list(order)))
+                    evals += 1
+                    if got2 != want2:
+                        viol.append({"clause": "agrees_with_git", "input": dict(inp, roots=[".", sub] if order[0] == root else [sub, "."]),
+                                     "got": sorted(set(got2) - set(want2)), "want": sorted(set(want2) - set(got2))})
             off = sorted(os.path.relpath(str(p), os.path.realpath(root))
                          for p in FileResolver(FileResolverConfig(exclude=[], respect_gitignore=False)).resolve([root]))
             allmd = sorted(f for f in inp["files"] if f.endswith(".md"))
@@ -81,6 +94,6 @@ def bounded(tier, seed):
     return {"evaluations": evals, "distinct_nontrivial": len(distinct), "violations": viol, "samples": samples,
             "rule": "12 hand-written scenarios (incl. comment / '#' / escape handling of ignore lines) (ignored directories with later / nested negations, anchored and multi-segment patterns in "
                     "nested files, re-included directories) + seeded trees with .gitignore files (1-3 lines each from an 18-line pool) at any level: the .md files returned by a "
-                    "traversal (no default excludes) equal the .md files of `git ls-files -co --exclude-standard`; with "
+                    "traversal (no default excludes) equal the .md files of `git ls-files -co --exclude-standard`; the same for two overlapping traversal roots (tree and one sub-directory, both orders: each judged from its own root); with "
                     "respect_gitignore=False every .md file is returned; distinct = distinct git results",
             "exhaustive": False, "bound": "%d trees" % (n + len(SCENARIOS))}
